@@ -130,6 +130,11 @@ def r16_contract(base, chk):
         for m in models:
             if "b" in m:
                 ks.append(sum((int(x) & 255) << (8 * i) for i, x in enumerate(m["b"])) % L)
+        # the Int-LF goal was not discharged: search for a concrete scalar with the bit-vector encoding of the same
+        # function (bit-precise; finds carry-chain corner cases the relaxations of Int-LF leave open)
+        kx = r16_bv_search(base, chk)
+        if kx is not None:
+            ks.insert(0, kx)
         ks += ptreplay.structured_scalars()
         res = native.run_ops("", [{"op": "S.signedRadix16", "args": ["s"], "init": {"s": ptreplay.scalar_words(x)}} for x in ks])
         for x, r in zip(ks, res):
@@ -141,6 +146,50 @@ def r16_contract(base, chk):
         return None
     k.replay = replay
     k.settle("signedRadix16")
+
+
+def r16_bv_search(base, chk, timeout_ms=150000):
+    """bit-vector encoding of signedRadix16 with the negated contract: a model is a candidate scalar (replayed natively
+    by the caller); unsat / unknown are recorded but the Int-LF obligation stays the deciding one"""
+    from . import kernels as K
+    import z3
+    import time
+    prog = base.prog
+    fname = prog.find("Scalar).signedRadix16")
+    k = K.BVK(base, chk, fname, label="signedRadix16 (BV search)")
+    bs = [k.bv("b[%d]" % i, 8) for i in range(32)]
+
+    def bytes_summary(ex_, path, args):
+        oid = ex_.new_obj(path, ("array", 32, prog.T("uint8")), name="Scalar.Bytes()", init=list(bs), kind="heap")
+        return X.SliceV(oid, (), 0, 32, 32)
+    k.ex.summaries[prog.find("Scalar).Bytes")] = bytes_summary
+    kval = K.cat_bytes(bs)
+    k.path.pc.append(z3.ULT(kval, z3.BitVecVal(L, 256)))
+    s = X.Ptr(k.ex.new_obj(k.path, prog.T(E + "Scalar"), name="s"))
+    try:
+        paths = k.run([s])
+    except Exception as e:
+        chk.note_inconclusive("signedRadix16 BV search: %r" % (e,))
+        return None
+    W = 264
+    t0 = time.time()
+    for p in paths:
+        so = z3.Solver()
+        so.set("timeout", timeout_ms)
+        for c in p.pc:
+            so.add(c)
+        if p.outcome[0] == "ret":
+            ds = [z3.BitVecVal(d, 8) if type(d) is int else d for d in p.outcome[1][0]]
+            tot = z3.BitVecVal(0, W)
+            for i, d in enumerate(ds):
+                tot = tot + (z3.SignExt(W - 8, d) << (4 * i))
+            so.add(z3.Not(z3.And(tot == z3.ZeroExt(W - 256, kval), *[z3.And(d >= -8, d <= 8) for d in ds])))
+        r = so.check()
+        chk.extra.setdefault("bv_counterexample_search", []).append(dict(function=fname, path=p.outcome[0], result=str(r), seconds=round(time.time() - t0, 1)))
+        if r == z3.sat:
+            m = so.model()
+            return m.eval(kval, model_completion=True).as_long()
+    return None
 
 
 def tsel_ct_contract(base, chk, tname):
